@@ -1,6 +1,6 @@
-/* common part of every ctl-unit harness: prelude, the REAL libxcm/ctl/ctl.c, environment stubs, contracts */
+/* common part of every ctl-unit harness: prelude, the REAL libxcm/ctl/ctl.c, environment stubs, contracts.
+ * env/base.h is deliberately NOT included (see env/ctl_env.h: allocation and copy models with non-constant sizes) */
 #include "prelude.h"
 #include "ctl.c"
-#include "env/base.h"
 #include "env/ctl_env.h"
 #include "contracts/ctl.h"
